@@ -37,6 +37,7 @@ type Ctx struct {
 	// looking through functions that are new with respect to the frozen table (terms.go)
 	soleCalls map[*ssa.Function]ssa.CallInstruction
 	tenv      *termEnv
+	phiOn     map[*ssa.Phi]bool
 	retParam  map[*ssa.Function]int
 	aliases   map[*ssa.Function]string
 }
@@ -165,7 +166,7 @@ func (c *Ctx) Name(f *ssa.Function) string {
 	if f == nil {
 		return "<nil>"
 	}
-	if n, ok := c.name[f]; ok {
+	if n, ok := c.name[f]; ok && (f.Synthetic == "" || f.Synthetic == "package initializer") {
 		return n
 	}
 	s := f.RelString(c.Otr.Pkg)
